@@ -785,6 +785,7 @@ pub fn gen_rows_unit(r: &mut Rng, o: &ProgOpts, last: bool, implicit_end: bool) 
         last_row_ended: r.chance(2, 3),
         close,
         contra: None,
+        recover: None,
     }
 }
 
